@@ -413,7 +413,7 @@ Dev_KeyGrammar(c, k) == SeqAny(RSpecs(c), KeyOdd) \/ (Has(c.t, "(") /\ RefRun(c)
 Dev_MixedKeyCrash(c) ==
     /\ c.args.shape = "dict" /\ \A j \in 1..Len(c.args.items) : c.args.keys[j].ty = "str"
     /\ SeqAny(RSpecs(c), LAMBDA s : s.haskey)
-    /\ SeqAny(RSpecs(c), LAMBDA s : ~s.haskey /\ s.ch # "%")
+    /\ SeqAny(RSpecs(c), LAMBDA s : ~s.haskey /\ ~s.adjacent)       \* a "%" without key other than "%%"
 
 DevMissed(c, k) ==
     CASE Dev_IntConvFloat(c, k) -> "percent-x-float"
